@@ -122,13 +122,67 @@ class Repo:
             elif isinstance(node, ast.FunctionDef):
                 mod.functions[node.name] = node
             elif isinstance(node, ast.ClassDef):
-                mod.classes[node.name] = self._class_info(mod, node)
+                nt = self._namedtuple_class(mod, node)
+                if nt is not None:
+                    # class X(NamedTuple): a: int ...  is  X = namedtuple('X', ['a', ...]): one form for the analysis
+                    mod.constants[node.name] = nt
+                    mod.const_lines[node.name] = node.lineno
+                else:
+                    mod.classes[node.name] = self._class_info(mod, node)
             elif isinstance(node, ast.Assign) and len(node.targets) == 1 and isinstance(node.targets[0], ast.Name):
-                mod.constants[node.targets[0].id] = node.value
+                value = node.value
+                if isinstance(value, ast.Call) and self.dotted(mod, value.func) == "typing.NamedTuple" and value.args:
+                    value = self._namedtuple_call(value) or value
+                mod.constants[node.targets[0].id] = value
                 mod.const_lines[node.targets[0].id] = node.lineno
             elif isinstance(node, ast.AnnAssign) and isinstance(node.target, ast.Name) and node.value is not None:
                 mod.constants[node.target.id] = node.value
                 mod.const_lines[node.target.id] = node.lineno
+
+    @staticmethod
+    def _synthetic_namedtuple(name, fields, defaults, at) -> ast.expr:
+        call = ast.Call(func=ast.Attribute(value=ast.Name(id="collections", ctx=ast.Load()), attr="namedtuple", ctx=ast.Load()),
+                        args=[name, ast.List(elts=[ast.Constant(f) for f in fields], ctx=ast.Load())],
+                        keywords=[ast.keyword(arg="defaults", value=ast.Tuple(elts=list(defaults), ctx=ast.Load()))]
+                        if defaults else [])
+        ast.copy_location(call, at)
+        ast.fix_missing_locations(call)
+        return call
+
+    def _namedtuple_class(self, mod: ModuleInfo, node: ast.ClassDef) -> Optional[ast.expr]:
+        """The collections.namedtuple(...) call a method-less `class X(typing.NamedTuple)` stands for, else None."""
+        if len(node.bases) != 1 or self.dotted(mod, node.bases[0]) != "typing.NamedTuple" or node.decorator_list:
+            return None
+        fields, defaults = [], []
+        for st in node.body:
+            if isinstance(st, ast.AnnAssign) and isinstance(st.target, ast.Name):
+                fields.append(st.target.id)
+                if st.value is not None:
+                    defaults.append(st.value)
+                elif defaults:
+                    return None
+            elif isinstance(st, ast.Expr) and isinstance(st.value, ast.Constant) and isinstance(st.value.value, str):
+                continue            # docstring
+            elif isinstance(st, ast.Pass):
+                continue
+            else:
+                return None         # methods, class attributes: a class of its own
+        return self._synthetic_namedtuple(ast.Constant(node.name), fields, defaults, node)
+
+    def _namedtuple_call(self, call: ast.Call) -> Optional[ast.expr]:
+        """typing.NamedTuple('X', [('a', int), ...]) / NamedTuple('X', a=int) as the collections.namedtuple call."""
+        fields = []
+        if len(call.args) == 2 and isinstance(call.args[1], (ast.List, ast.Tuple)) and not call.keywords:
+            for e in call.args[1].elts:
+                if not (isinstance(e, ast.Tuple) and len(e.elts) == 2 and isinstance(e.elts[0], ast.Constant)
+                        and isinstance(e.elts[0].value, str)):
+                    return None
+                fields.append(e.elts[0].value)
+        elif len(call.args) == 1 and call.keywords and all(k.arg for k in call.keywords):
+            fields = [k.arg for k in call.keywords]
+        else:
+            return None
+        return self._synthetic_namedtuple(call.args[0], fields, [], call)
 
     def _class_info(self, mod: ModuleInfo, node: ast.ClassDef) -> ClassInfo:
         bases = [self.dotted(mod, b) or ast.unparse(b) for b in node.bases]
